@@ -291,3 +291,345 @@ Section Pow.
     intros E. apply Hfeqb in E. congruence.
   Qed.
 End Pow.
+
+(** ** homogeneity of the column operators of Model/Sigma.v.
+    Stated for an arbitrary multiplier [c] (the instances with
+    [c = factor s d] and the dimension bookkeeping are in Prop/C12.v). *)
+From Dino Require Import Thm.Sigma.
+
+Section Columns.
+  Context {F : Type} {o : Ops F} {Fc : FieldC o}.
+  Add Field FFsc2 : (field_c : FieldTh o).
+
+  Lemma cumsum_m_ext dot K (f g : nat -> F) j :
+    (forall i, f i = g i) -> cumsum_m dot K f j = cumsum_m dot K g j.
+  Proof.
+    intros H. destruct dot; cbn [cumsum_m]; unfold cumsum_dot, cumsum_seq;
+      apply sumn_ext; intros i _; now rewrite H.
+  Qed.
+  Lemma revcumsum_m_ext dot K (f g : nat -> F) j :
+    (forall i, f i = g i) -> revcumsum_m dot K f j = revcumsum_m dot K g j.
+  Proof.
+    intros H. destruct dot; cbn [revcumsum_m]; unfold revcumsum_dot, revcumsum_seq;
+      apply sumn_ext; intros i _; now rewrite H.
+  Qed.
+  Lemma cumsum_m_scal dot K c (f : nat -> F) j :
+    cumsum_m dot K (fun k => c * f k) j = c * cumsum_m dot K f j.
+  Proof.
+    destruct dot; cbn [cumsum_m]; unfold cumsum_dot, cumsum_seq.
+    - rewrite <- sumn_scal_l. apply sumn_ext; intros i _; ring.
+    - now rewrite sumn_scal_l.
+  Qed.
+  Lemma revcumsum_m_scal dot K c (f : nat -> F) j :
+    revcumsum_m dot K (fun k => c * f k) j = c * revcumsum_m dot K f j.
+  Proof.
+    destruct dot; cbn [revcumsum_m]; unfold revcumsum_dot, revcumsum_seq.
+    - rewrite <- sumn_scal_l. apply sumn_ext; intros i _; ring.
+    - now rewrite sumn_scal_l.
+  Qed.
+
+  (** degree 1 in [x]; sigma is dimensionless *)
+  Theorem cum_sigma_integral_homogeneous dot down K (b x : nat -> F) c j :
+    cum_sigma_integral dot down K b (scol c x) j = c * cum_sigma_integral dot down K b x j.
+  Proof.
+    unfold cum_sigma_integral. destruct down.
+    - rewrite <- cumsum_m_scal. apply cumsum_m_ext. intros i. unfold xdsigma, scol. ring.
+    - rewrite <- revcumsum_m_scal. apply revcumsum_m_ext. intros i. unfold xdsigma, scol. ring.
+  Qed.
+
+  Theorem sigma_integral_homogeneous K (b x : nat -> F) c :
+    sigma_integral K b (scol c x) = c * sigma_integral K b x.
+  Proof.
+    unfold sigma_integral. rewrite <- sumn_scal_l. apply sumn_ext. intros i _. unfold xdsigma, scol. ring.
+  Qed.
+
+  Theorem centered_difference_homogeneous (b x : nat -> F) c k :
+    centered_difference b (scol c x) k = c * centered_difference b x k.
+  Proof. unfold centered_difference, scol. ring. Qed.
+
+  Lemma pad_tb_scal K c top bot (v : nat -> F) k :
+    pad_tb K (c * top) (c * bot) (fun i => c * v i) k = c * pad_tb K top bot v k.
+  Proof. unfold pad_tb. destruct (Nat.eqb k 0); [reflexivity|]. destruct (Nat.ltb k K); reflexivity. Qed.
+  Lemma pad_tb_ext K top bot (v v' : nat -> F) k :
+    (forall i, v i = v' i) -> pad_tb K top bot v k = pad_tb K top bot v' k.
+  Proof. intros H. unfold pad_tb. destruct (Nat.eqb k 0); [reflexivity|]. destruct (Nat.ltb k K); auto. Qed.
+
+  (** bilinear: velocity of dimension dw, advected quantity of dimension dx *)
+  Theorem centered_vertical_advection_bilinear K (b w x : nat -> F) wt wb dt db cw cx n :
+    centered_vertical_advection K b (scol cw w) (scol cx x) (cw * wt) (cw * wb) (cx * dt) (cx * db) n
+    = cw * cx * centered_vertical_advection K b w x wt wb dt db n.
+  Proof.
+    unfold centered_vertical_advection. cbv zeta.
+    assert (A : forall k, pad_tb K (cw * wt) (cw * wb) (scol cw w) k = cw * pad_tb K wt wb w k).
+    { intros k. apply pad_tb_scal. }
+    assert (B : forall k, pad_tb K (cx * dt) (cx * db) (centered_difference b (scol cx x)) k
+                          = cx * pad_tb K dt db (centered_difference b x) k).
+    { intros k. rewrite <- pad_tb_scal. apply pad_tb_ext. intros i. apply centered_difference_homogeneous. }
+    rewrite !A, !B. ring.
+  Qed.
+
+  (** geopotential: R (L^2 T^-2 Theta^-1) times T (Theta) *)
+  Theorem geo_diff_dense_homogeneous K R (ls T : nat -> F) cR cT j :
+    geo_diff_dense K (cR * R) ls (scol cT T) j = cR * cT * geo_diff_dense K R ls T j.
+  Proof.
+    unfold geo_diff_dense. rewrite <- sumn_scal_l. apply sumn_ext. intros k _.
+    unfold geo_weights, scol. ring.
+  Qed.
+
+  Theorem geo_diff_sparse_homogeneous K R (ls T : nat -> F) cR cT j :
+    (j < K)%nat ->
+    geo_diff_sparse K (cR * R) ls (scol cT T) j = cR * cT * geo_diff_sparse K R ls T j.
+  Proof.
+    intros Hj. rewrite !(geo_sparse_eq_dense K _ ls _ j Hj). apply geo_diff_dense_homogeneous.
+  Qed.
+End Columns.
+
+(** ** log surface pressure: the one variable that is not homogeneous *)
+Section LogPressure.
+  Context {F : Type} {o : Ops F} {Fc : FieldC o}.
+  Add Field FFsc3 : (field_c : FieldTh o).
+
+  (** A linear operator (matrix [A], any size) that annihilates the constant
+      field - a nodal gradient or Laplacian - does not see the shift. *)
+  Theorem shift_killed_nodal n (A : nat -> nat -> F) (x : nat -> F) c i :
+    (forall r, sumn n (fun j => A r j) = 0) ->
+    lin n A (shift_field c x) i = lin n A x i.
+  Proof.
+    intros H. unfold lin, shift_field.
+    rewrite (sumn_ext n _ (fun j => A i j * x j + c * A i j)) by (intros; ring).
+    rewrite sumn_add, sumn_scal_l, H. ring.
+  Qed.
+
+  (** Spectral form: an operator whose column of the constant mode (index 0)
+      vanishes - grad, div, curl, Laplacian, laplacian eigenvalue 0 - does not
+      see a shift of the (0,0) coefficient. *)
+  Theorem shift_killed_modal n (A : nat -> nat -> F) (x : nat -> F) c i :
+    (0 < n)%nat -> (forall r, A r 0%nat = 0) ->
+    lin n A (shift_mode0 c x) i = lin n A x i.
+  Proof.
+    intros Hn H. unfold lin. destruct n as [|n]; [lia|].
+    rewrite !sumn_S_first. f_equal.
+    - unfold shift_mode0. cbn [Nat.eqb]. rewrite H. ring.
+  Qed.
+
+  (** an operator that maps the constant mode to itself (the resolvent at
+      l = 0, time filters, the identity) passes the shift through *)
+  Theorem shift_passed_modal n (A : nat -> nat -> F) (x : nat -> F) c i :
+    (0 < n)%nat -> (forall r, A r 0%nat = delta r 0%nat) ->
+    lin n A (shift_mode0 c x) i = shift_mode0 c (lin n A x) i.
+  Proof.
+    intros Hn H. unfold lin. destruct n as [|n]; [lia|].
+    rewrite !sumn_S_first. unfold shift_mode0 at 1. cbn [Nat.eqb].
+    rewrite (sumn_ext n (fun j => A i (S j) * shift_mode0 c x (S j)) (fun j => A i (S j) * x (S j))).
+    2:{ intros j _. unfold shift_mode0. reflexivity. }
+    unfold shift_mode0 at 1. rewrite sumn_S_first. rewrite H. unfold delta.
+    destruct (Nat.eqb i 0); ring.
+  Qed.
+
+  (** Held-Suarez: sigma*exp(lnps)/p0 is invariant when p0 is
+      non-dimensionalised with the same scale; [E] is any homomorphism from
+      F under addition to F under multiplication (the exponential), [fp] = factor s d_pressure = E lp. *)
+  Theorem p_over_p0_invariant (E : F -> F) (sigma lnps_si p0_si lp fp : F) :
+    (forall a b, E (a + b) = E a * E b) -> E lp = fp -> fp <> 0 -> p0_si <> 0 ->
+    p_over_p0 E sigma (lnps_si - lp) (p0_si / fp) = p_over_p0 E sigma lnps_si p0_si.
+  Proof.
+    intros HE Hlp Hfp Hp0. unfold p_over_p0.
+    assert (A : E lnps_si = E (lnps_si - lp) * fp).
+    { rewrite <- Hlp, <- HE. f_equal. ring. }
+    rewrite A. field. split; assumption.
+  Qed.
+End LogPressure.
+
+(** ** time stepping commutes with a change of scale.
+    State space [V] (any vector space over the scalars), two copies of the
+    equations: [(Fx, G, Ginv)] under the first scale and [(Fx', G', Ginv')]
+    under the second.  The change of scale on states is affine,
+    [S u = L u + c0] ([L] linear: multiplication of every component by its
+    factor; [c0]: the shift of the mean log surface pressure); [tau] is the
+    ratio of the time scales, so [dt' = tau * dt], and tendencies transform
+    with [(1/tau) L]. *)
+From Dino Require Import Model.Integrators.
+
+Section StepCovariance.
+  Context {F : Type} {o : Ops F} {Fc : FieldC o} {V : Type} {vo : VOps F V}.
+  Add Field FFsc4 : (field_c : FieldTh o).
+  Infix "+v" := vadd (at level 50, left associativity).
+  Infix "*v" := vscal (at level 40, left associativity).
+
+  (** vector-space laws actually used *)
+  Hypothesis vadd_assoc : forall u v w : V, u +v (v +v w) = (u +v v) +v w.
+  Hypothesis vadd_comm : forall u v : V, u +v v = v +v u.
+  Hypothesis vscal_add : forall (a : F) (u v : V), a *v (u +v v) = a *v u +v a *v v.
+  Hypothesis vscal_mul : forall (a b : F) (u : V), a *v (b *v u) = (a * b) *v u.
+  Hypothesis vscal_zero : forall a : F, a *v vzero = (vzero : V).
+
+  Variables (L : V -> V) (c0 : V) (tau : F).
+  Hypothesis L_add : forall u v, L (u +v v) = L u +v L v.
+  Hypothesis L_scal : forall a u, L (a *v u) = a *v L u.
+  Hypothesis L_zero : L vzero = vzero.
+  Hypothesis tau_nz : tau <> 0.
+
+  Definition S (u : V) : V := L u +v c0.
+  (** how tendencies transform *)
+  Definition Tn (t : V) : V := (1 / tau) *v L t.
+
+  Variables (Fx G : V -> V) (Ginv : V -> F -> V) (Fx' G' : V -> V) (Ginv' : V -> F -> V).
+  Hypothesis HF : forall u, Fx' (S u) = Tn (Fx u).
+  Hypothesis HG : forall u, G' (S u) = Tn (G u).
+  Hypothesis HGinv : forall u eta, Ginv' (S u) (tau * eta) = S (Ginv u eta).
+
+  Lemma S_plus u w : S u +v L w = S (u +v w).
+  Proof.
+    unfold S. rewrite L_add. rewrite <- !vadd_assoc. f_equal. apply vadd_comm.
+  Qed.
+
+  Lemma Tn_add t1 t2 : Tn t1 +v Tn t2 = Tn (t1 +v t2).
+  Proof. unfold Tn. now rewrite L_add, vscal_add. Qed.
+  Lemma Tn_scal a t : a *v Tn t = Tn (a *v t).
+  Proof.
+    unfold Tn. rewrite L_scal, !vscal_mul. f_equal. ring.
+  Qed.
+  Lemma Tn_zero : Tn vzero = vzero.
+  Proof. unfold Tn. now rewrite L_zero, vscal_zero. Qed.
+
+  (** state + (rescaled time) * (rescaled tendency) = rescaled (state + time * tendency) *)
+  Lemma S_axpy u a t : S u +v (tau * a) *v Tn t = S (u +v a *v t).
+  Proof.
+    rewrite <- S_plus. f_equal. unfold Tn. rewrite vscal_mul, L_scal. f_equal.
+    field. exact tau_nz.
+  Qed.
+  Lemma S_axpy' u a a' t : a' = tau * a -> S u +v a' *v Tn t = S (u +v a *v t).
+  Proof. intros ->. apply S_axpy. Qed.
+  Lemma Ginv_cov u eta eta' : eta' = tau * eta -> Ginv' (S u) eta' = S (Ginv u eta).
+  Proof. intros ->. apply HGinv. Qed.
+
+  Theorem euler_step_covariant dt u0 :
+    euler_step Fx' Ginv' (tau * dt) (S u0) = S (euler_step Fx Ginv dt u0).
+  Proof.
+    unfold euler_step. cbv zeta. rewrite HF, S_axpy. apply HGinv.
+  Qed.
+
+  Theorem backward_euler_step_covariant dt u0 :
+    backward_euler_step Ginv' (tau * dt) (S u0) = S (backward_euler_step Ginv dt u0).
+  Proof. unfold backward_euler_step. apply HGinv. Qed.
+
+  Theorem cn_rk2_step_covariant dt u0 :
+    cn_rk2_step Fx' G' Ginv' (tau * dt) (S u0) = S (cn_rk2_step Fx G Ginv dt u0).
+  Proof.
+    unfold cn_rk2_step. cbv zeta.
+    rewrite HF, HG.
+    rewrite (S_axpy' u0 (half * dt) (half * (tau * dt)) (G u0)) by ring.
+    rewrite S_axpy.
+    rewrite (Ginv_cov _ (half * dt)) by ring.
+    rewrite HF, Tn_add, Tn_scal, S_axpy.
+    apply Ginv_cov. ring.
+  Qed.
+
+  Theorem leapfrog_covariant dt alpha p q :
+    leapfrog_step Fx' G' Ginv' (tau * dt) alpha (S p, S q)
+    = (S (fst (leapfrog_step Fx G Ginv dt alpha (p, q))), S (snd (leapfrog_step Fx G Ginv dt alpha (p, q)))).
+  Proof.
+    unfold leapfrog_step. cbn [fst snd]. f_equal.
+    rewrite HF, HG, Tn_scal, Tn_add.
+    rewrite (S_axpy' p (two * dt) (two * (tau * dt))) by ring.
+    apply Ginv_cov. ring.
+  Qed.
+
+  (** low-storage Runge-Kutta + Crank-Nicolson (crank_nicolson_rk3 / rk4): all lists, all lengths *)
+  Theorem ls_loop_covariant dt al be ga h u :
+    ls_loop Fx' G' Ginv' (tau * dt) al be ga (Tn h) (S u) = S (ls_loop Fx G Ginv dt al be ga h u).
+  Proof.
+    revert be ga h u. induction al as [|a0 al IH]; intros be ga h u.
+    - destruct be, ga; reflexivity.
+    - destruct be as [|b be]; [destruct ga; reflexivity|].
+      destruct ga as [|g ga]; [reflexivity|].
+      destruct al as [|a1 al]; [reflexivity|].
+      cbn [ls_loop].
+      rewrite HF, HG, Tn_scal, Tn_add.
+      rewrite (S_axpy' u (g * dt) (g * (tau * dt))) by ring.
+      rewrite (S_axpy' _ (half * dt * (a1 - a0)) (half * (tau * dt) * (a1 - a0))) by ring.
+      rewrite (Ginv_cov _ (half * dt * (a1 - a0))) by ring.
+      apply IH.
+  Qed.
+
+  Theorem ls_step_covariant dt al be ga u :
+    ls_step Fx' G' Ginv' (tau * dt) al be ga (S u) = S (ls_step Fx G Ginv dt al be ga u).
+  Proof. unfold ls_step. rewrite <- ls_loop_covariant. now rewrite Tn_zero. Qed.
+
+  (** general IMEX Runge-Kutta (imex_rk_sil3 and any other tableau) *)
+  Definition oT (x : option V) : option V := option_map Tn x.
+
+  Lemma wsum_skip_covariant cs xs acc :
+    wsum_skip cs (map oT xs) (Tn acc) = option_map Tn (wsum_skip cs xs acc).
+  Proof.
+    revert xs acc. induction cs as [|c cs IH]; intros xs acc; cbn [wsum_skip]; [reflexivity|].
+    destruct xs as [|x xs]; cbn [map wsum_skip]; [reflexivity|].
+    destruct (nz c).
+    - destruct x as [v|]; cbn [oT option_map]; [|reflexivity].
+      rewrite Tn_scal, Tn_add. apply IH.
+    - apply IH.
+  Qed.
+
+  Lemma wsum_skip_covariant0 cs xs :
+    wsum_skip cs (map oT xs) vzero = option_map Tn (wsum_skip cs xs vzero).
+  Proof. rewrite <- wsum_skip_covariant. now rewrite Tn_zero. Qed.
+
+  Lemma imex_stages_covariant dt y0 b_ex b_im i rex rim fs gs :
+    imex_stages Fx' G' Ginv' (tau * dt) (S y0) b_ex b_im i rex rim (map oT fs) (map oT gs)
+    = option_map (fun p => (map oT (fst p), map oT (snd p)))
+                 (imex_stages Fx G Ginv dt y0 b_ex b_im i rex rim fs gs).
+  Proof.
+    revert i rim fs gs. induction rex as [|re rex IH]; intros i rim fs gs; cbn [imex_stages]; [reflexivity|].
+    destruct rim as [|ri rim]; [reflexivity|].
+    rewrite !wsum_skip_covariant0.
+    destruct (wsum_skip re fs vzero) as [ex|]; cbn [option_map]; [|reflexivity].
+    destruct (wsum_skip ri gs vzero) as [im|]; cbn [option_map]; [|reflexivity].
+    rewrite !S_axpy.
+    rewrite (Ginv_cov _ (dt * nth i ri 0)) by ring.
+    rewrite HF, HG.
+    replace (map oT fs ++ [if needed i rex b_ex then Some (Tn (Fx (Ginv (y0 +v dt *v ex +v dt *v im) (dt * nth i ri 0)))) else None])
+      with (map oT (fs ++ [if needed i rex b_ex then Some (Fx (Ginv (y0 +v dt *v ex +v dt *v im) (dt * nth i ri 0))) else None])).
+    2:{ rewrite map_app. cbn [map]. destruct (needed i rex b_ex); reflexivity. }
+    replace (map oT gs ++ [if needed i rim b_im then Some (Tn (G (Ginv (y0 +v dt *v ex +v dt *v im) (dt * nth i ri 0)))) else None])
+      with (map oT (gs ++ [if needed i rim b_im then Some (G (Ginv (y0 +v dt *v ex +v dt *v im) (dt * nth i ri 0))) else None])).
+    2:{ rewrite map_app. cbn [map]. destruct (needed i rim b_im); reflexivity. }
+    apply IH.
+  Qed.
+
+  Theorem imex_step_covariant dt a_ex a_im b_ex b_im y0 :
+    imex_step Fx' G' Ginv' (tau * dt) a_ex a_im b_ex b_im (S y0)
+    = option_map S (imex_step Fx G Ginv dt a_ex a_im b_ex b_im y0).
+  Proof.
+    unfold imex_step.
+    pose proof (imex_stages_covariant dt y0 b_ex b_im 1 a_ex a_im [Some (Fx y0)] [Some (G y0)]) as H.
+    cbn [map oT option_map] in H. rewrite HF, HG. rewrite H. clear H.
+    destruct (imex_stages Fx G Ginv dt y0 b_ex b_im 1 a_ex a_im [Some (Fx y0)] [Some (G y0)]) as [[fs gs]|];
+      cbn [option_map fst snd]; [|reflexivity].
+    rewrite !wsum_skip_covariant0.
+    destruct (wsum_skip b_ex fs vzero) as [ex|]; cbn [option_map]; [|reflexivity].
+    destruct (wsum_skip b_im gs vzero) as [im|]; cbn [option_map]; [|reflexivity].
+    now rewrite !S_axpy.
+  Qed.
+
+  (** filters (a function of the state before and after the step) and trajectories *)
+  Fixpoint apply_filters (fl : list (V -> V -> V)) (u un : V) : V :=
+    match fl with [] => un | f :: fl' => apply_filters fl' u (f u un) end.
+  Definition step_with_filters (step : V -> V) (fl : list (V -> V -> V)) (u : V) : V :=
+    apply_filters fl u (step u).
+
+  Theorem trajectory_covariant (step step' : V -> V) (fl fl' : list (V -> V -> V)) :
+    (forall u, step' (S u) = S (step u)) ->
+    Forall2 (fun f' f => forall u w, f' (S u) (S w) = S (f u w)) fl' fl ->
+    forall k u, Nat.iter k (step_with_filters step' fl') (S u) = S (Nat.iter k (step_with_filters step fl) u).
+  Proof.
+    intros Hs Hf.
+    assert (A : forall u, step_with_filters step' fl' (S u) = S (step_with_filters step fl u)).
+    { intros u. unfold step_with_filters. rewrite Hs. generalize (step u) as w.
+      induction Hf as [|f' f fl' fl Hff Hf IH]; intros w; cbn [apply_filters]; [reflexivity|].
+      rewrite Hff. apply IH. }
+    induction k as [|k IH]; intros u; [reflexivity|].
+    change (Nat.iter (S k) (step_with_filters step' fl') (S u)) with (step_with_filters step' fl' (Nat.iter k (step_with_filters step' fl') (S u))).
+    change (Nat.iter (S k) (step_with_filters step fl) u) with (step_with_filters step fl (Nat.iter k (step_with_filters step fl) u)).
+    rewrite IH. apply A.
+  Qed.
+End StepCovariance.
